@@ -1,7 +1,7 @@
 (** C09 - persisted trees satisfy the Merkle-search-tree shape invariants.
     Statements only; proofs are in Shape.v / Inv.v / Hist.v. *)
 From Coq Require Import List NArith ZArith Bool.
-From Mast Require Import Prim Key Tree KeyOrder Codec Store Diff World Erase Build Spec Canon Level Inv Shape Hist.
+From Mast Require Import Reload WorldInv Prim Key Tree KeyOrder Codec Store Diff World Erase Build Spec Canon Level Inv Shape Hist.
 Import ListNotations.
 
 Section GENERIC.
@@ -36,6 +36,14 @@ Theorem C09_invariant_of_histories_partial : forall ops,
   forallb supported ops = true -> winv (wrun empty_world ops) (awrun [] ops).
 Proof. intros ops H. exact (history_invariant ops empty_world [] winv_empty H). Qed.
 
+(** ... and with persist and reload points, many trees, many stores (binary format; side conditions
+    [conds] as in C01_refines_sorted_map): every tree of every reachable world - also one loaded
+    from a persisted root - is the reference tree of its abstract contents *)
+Theorem C09_invariant_of_histories : forall ops t tr,
+  conds empty_world ([], []) ops -> aget (w_trees (wrun empty_world ops)) t = Some tr ->
+  exists x, aget (fst (awrun2 ([], []) ops)) t = Some x /\ kcanon (at_bf x) (t_m tr) (at_l x).
+Proof. exact reachable_canonical. Qed.
+
 Theorem C09_persist_keeps_invariant : forall bf f m l, kcanon bf m l ->
   oks (make_root f m) (fun r => kcanon bf (snd r) l /\ r_size (fst r) = N.of_nat (length l)).
 Proof. exact k_make_root_ok. Qed.
@@ -44,4 +52,5 @@ Print Assumptions C09_reference_shape.
 Print Assumptions C09_ordered.
 Print Assumptions C09_is_reference_tree.
 Print Assumptions C09_invariant_of_histories_partial.
+Print Assumptions C09_invariant_of_histories.
 Print Assumptions C09_persist_keeps_invariant.
